@@ -7,6 +7,26 @@ use std::io::Read;
 mod witnesses;
 mod bounded;
 
+// Allocation cap for the hostile-input child processes: a single allocation request above ALLOC_CAP fails (-> Rust aborts with
+// "memory allocation of N bytes failed").  This makes "a few hundred input bytes ask for more than 1 GiB" a deterministic
+// outcome that does not depend on the host's memory or address-space limits.  usize::MAX (the default) disables it.
+pub static ALLOC_CAP: std::sync::atomic::AtomicUsize = std::sync::atomic::AtomicUsize::new(usize::MAX);
+struct CapAlloc;
+unsafe impl std::alloc::GlobalAlloc for CapAlloc {
+    unsafe fn alloc(&self, l: std::alloc::Layout) -> *mut u8 {
+        if l.size() > ALLOC_CAP.load(std::sync::atomic::Ordering::Relaxed) { std::ptr::null_mut() } else { unsafe { std::alloc::System.alloc(l) } }
+    }
+    unsafe fn alloc_zeroed(&self, l: std::alloc::Layout) -> *mut u8 {
+        if l.size() > ALLOC_CAP.load(std::sync::atomic::Ordering::Relaxed) { std::ptr::null_mut() } else { unsafe { std::alloc::System.alloc_zeroed(l) } }
+    }
+    unsafe fn dealloc(&self, p: *mut u8, l: std::alloc::Layout) { unsafe { std::alloc::System.dealloc(p, l) } }
+    unsafe fn realloc(&self, p: *mut u8, l: std::alloc::Layout, n: usize) -> *mut u8 {
+        if n > ALLOC_CAP.load(std::sync::atomic::Ordering::Relaxed) { std::ptr::null_mut() } else { unsafe { std::alloc::System.realloc(p, l, n) } }
+    }
+}
+#[global_allocator]
+static GLOBAL: CapAlloc = CapAlloc;
+
 fn main() {
     let args: Vec<String> = std::env::args().collect();
     if args.len() < 2 {
@@ -29,6 +49,7 @@ fn main() {
         n if n.starts_with("child-dec-") => {
             let cur = args.iter().position(|a| a == "--cur").map(|i| args[i + 1].clone()).unwrap_or_else(|| "/dev/null".into());
             let start = args.iter().position(|a| a == "--start").and_then(|i| args[i + 1].parse().ok()).unwrap_or(0usize);
+            ALLOC_CAP.store(1 << 30, std::sync::atomic::Ordering::Relaxed);
             bounded::decoder_child(&n[10..], &tier, seed, &cur, start); std::process::exit(0)
         }
         n if n.starts_with("child-") => { witnesses::child(&n[6..]); std::process::exit(0) }
@@ -39,6 +60,7 @@ fn main() {
     match r {
         Ok(info) => { println!("RESULT {{\"ok\":true,{info}}}"); }
         Err(w) => {
+            if w.starts_with("UNDECIDED:") { eprintln!("{w}"); std::process::exit(2); }
             if let Some(rest) = w.strip_prefix("FAILURES\n") {
                 let list: Vec<String> = rest.lines().map(|l| format!("{:?}", l)).collect();
                 println!("RESULT {{\"ok\":false,\"witness\":{:?},\"failures\":[{}]}}", rest.lines().next().unwrap_or(""), list.join(","));
